@@ -241,6 +241,10 @@ def layers(tier):
     for c in chunks(S, 2):
         jobs.append({'L': ['a b', 'a', None], 'R': ['a b', 'b'], 'seqs': c, 'n_jobs': [1, 2, 7], 'pres': pres,
                      'orders': not quick})
+    # values that read like the printed form of a missing marker, next to real missing values (None and NaN)
+    for c in chunks(seqs_of(3, 2, maxlen=2, repeats=False), 4):
+        for p_ in (0, 3):
+            jobs.append({'L': ['None', None, 'nan'], 'R': ['None', 'nan'], 'seqs': c, 'n_jobs': [1, 2], 'pres': p_})
     Ls = [Layer('candset', 'checks.c06:w_candset', jobs,
                 'all sequences of distinct (and repeated) pairs of 2x2 tables (3 value assignments) and of a '
                 '3x2 table as candidate sets (arbitrary index, extra column, gapped _id) x 14 filter settings '
